@@ -150,7 +150,7 @@ fn run(t0: u128, ops: &[Op]) -> Vec<Vec<String>> {
                 clock.underlying().show(time(t));
                 let ret = clock.set_frequency(*f).unwrap();
                 clock.underlying().show(time(t));
-                let post = clock.now() + dur(if *f > 499.0 { 1 } else { 0 });
+                let post = clock.now();
                 out.push(vec![tzu(pre), tzu(ret), tzu(post)]);
             }
             Op::Step(d) => {
